@@ -10,14 +10,14 @@ from harness.validate import validate
 INV = ["ClockMonotone", "ResultsFromTable", "LevelsConsecutive", "StampFormula", "WaitChargedOnce", "NoEventAfterStop"]
 FLAGS = {"clock_backwards", "stamp_in_future", "stamp_backwards", "value_not_from_table", "level_not_consecutive",
          "beyond_max_resource", "stamp_formula", "sleep_not_charged_once", "result_after_stop",
-         "result_for_unpolled_trial", "backend_raised"}
+         "result_for_unpolled_trial", "backend_raised", "outside_time_not_charged_once"}
 
 
 def base(**kw):
     # DropStale = TRUE models the repaired code (results that arrive until the stop signal reaches the worker are
     # dropped); FALSE is the behaviour before the fix recorded in known_findings.json
     c = dict(DropStale=True, NT=2, TabName="a", DRes=50, DFin=50, DStop=50, DStart=50, DCStop=50, Sleep=100, Ckpt=True, MRA=False, Seed=0,
-             MaxCalls=8)
+             MaxCalls=8, Outs=set())
     c.update(kw)
     return c
 
@@ -28,6 +28,8 @@ def tables(tier):
         "a_zero_delays": base(DRes=0, DFin=0, DStop=0, DStart=0, DCStop=0, Sleep=7),
         "b_nockpt_mra": base(TabName="b", Ckpt=False, MRA=True, DRes=0, DFin=0, DStart=0, MaxCalls=9),
         "a_long_sleep": base(Sleep=400, DRes=10, DFin=20, MRA=True),
+        # real time passes outside the back-end between its calls (3 or 40 ticks at a time): charged once by the next call
+        "a_outside": base(Outs={3, 40}, MaxCalls=7, DRes=10, DFin=10, DStop=10, DStart=10, DCStop=10),
     }
     if tier == "thorough":
         t["a_3trials"] = base(NT=3, MaxCalls=9)
@@ -103,7 +105,8 @@ def run(rep, tier, seed):
     rep.assume(
         "delays, sleep time and table elapsed times are multiples of 1/64 s; simulated time is projected to integer "
         "micro-seconds (|t*1e6 - ticks| < 1e-3 or the run is discarded as machinery failure)",
-        "real time is frozen (the `time` object of time_keeper.py is replaced from the harness), so only simulated time passes",
+        "real time is controlled (the `time` object of time_keeper.py is replaced from the harness): it passes outside the "
+        "back-end only where the schedule says so (Outside events), in whole ticks",
         "the table's elapsed time is taken after the library's documented monotonicity repair (each step >= 0.01 s)",
         "tables have >= 2 hyper-parameter columns (pandas 3 single-column lookup fails, DESIGN.md section 12)",
         "the tuning loop polls all trials it believes running",
